@@ -466,6 +466,20 @@ func engineered(r *gen.RNG, sp *fspec) ref.Bits {
 			return ref.Encode(neg, c, r.Pick(ref.MaxExp, ref.MinExp, 6000, -6000, 3000, -3000))
 		}
 		return ref.Encode(neg, c, r.Range(-300, 300))
+	case 10: // printed exponent at the digit-count boundaries of the exponent field (directly, or via a rounding carry)
+		X := r.Pick(9, 10, 11, 99, 100, 101, 999, 1000, 1001, 6144, 308, 309)
+		if r.Bool() {
+			X = -X
+		}
+		nd := r.Range(1, 34)
+		var c *big.Int
+		if r.Chance(1, 3) {
+			c = new(big.Int).Sub(ref.Pow10(nd), ref.One) // 99..9: rounds up into the next exponent
+			X--
+		} else {
+			c = r.Digits(nd)
+		}
+		return ref.Encode(neg, c, gen.ClampExp(X-(nd-1)))
 	case 9: // small magnitudes near the f precision
 		c := r.Digits(r.Range(1, 6))
 		return ref.Encode(neg, c, -p+r.Range(-8, 2))
